@@ -7,6 +7,7 @@ import (
 	"encoding/binary"
 	"fmt"
 	"io"
+	"reflect"
 	"strconv"
 	"strings"
 )
@@ -235,13 +236,31 @@ func NewQuorumCert(signature QuorumSignature, view View, hash Hash) QuorumCert {
 }
 
 // ToBytes returns a byte representation of the quorum certificate.
+// Besides the view, the block hash and the signature bytes it covers the IDs of the claimed
+// participants followed by their count, so that the bytes (and hence the hash of a block
+// embedding the certificate) also name who signed.
 func (qc QuorumCert) ToBytes() []byte {
 	b := qc.view.ToBytes()
 	b = append(b, qc.hash[:]...)
-	if qc.signature != nil {
+	if !isNilSignature(qc.signature) {
 		b = append(b, qc.signature.ToBytes()...)
+		var n uint32
+		qc.signature.Participants().ForEach(func(id ID) {
+			b = append(b, id.ToBytes()...)
+			n++
+		})
+		b = binary.LittleEndian.AppendUint32(b, n)
 	}
 	return b
+}
+
+// isNilSignature returns true if sig is nil or holds a nil pointer.
+func isNilSignature(sig QuorumSignature) bool {
+	if sig == nil {
+		return true
+	}
+	v := reflect.ValueOf(sig)
+	return v.Kind() == reflect.Pointer && v.IsNil()
 }
 
 // Signature returns the threshold signature.
